@@ -30,7 +30,54 @@ class C10(Prop):
     thorough_cases = 200000
     shrink_data = False
 
+    def gen_dense(self, rng):
+        from fractions import Fraction as Fr
+        c = lang.dense_cfg(rng, future=False)
+        c.max_depth = min(c.max_depth, 3)
+        f = lang.gen_formula(rng, c)
+        names = lang.variables(f) or [c.vars[0]]
+
+        def sigs():
+            base = lang.gen_signal(rng, n=rng.randint(1, 6), start=Fr(0))
+            return dict((k, [[float(t), rng.choice(lang.SMALL)] for (t, _) in base]) for k in names)
+        return {'dense': True, 'formula': f, 'pre_sig': sigs() if rng.random() < 0.85 else None, 'post_sig': sigs()}
+
+    def judge_dense(self, case):
+        v = Verdict()
+        f = case['formula']
+        names = sorted(case['post_sig'])
+        text = lang.to_text(f)
+        v.nontrivial = lang.has_stateful(f) and case['pre_sig'] is not None
+        v.info['class:dense' + ('' if case['pre_sig'] else '+reset-before-first-update')] = 1
+        args = lambda sig: [[k, [list(p) for p in sig[k]]] for k in names]
+        try:
+            want = drive.Mon('ct', {'text': text, 'vars': names}).update(*args(case['post_sig']))
+            m = drive.Mon('ct', {'text': text, 'vars': names})
+            if case['pre_sig']:
+                m.update(*args(case['pre_sig']))
+        except Exception as e:
+            v.skip = 'fresh monitor / history raised %s' % type(e).__name__
+            return v
+        try:
+            m.reset()
+        except Exception as e:
+            v.bad('reset-raises:' + type(e).__name__, '%s [dense online]: reset() raised %s: %s' % (
+                text, type(e).__name__, e), 'D-dense-reset')
+            return v
+        try:
+            got = m.update(*args(case['post_sig']))
+        except Exception as e:
+            v.bad('update-after-reset-raises:' + type(e).__name__, '%s [dense online]: update after reset() raised %s'
+                  % (text, type(e).__name__), 'D-dense-reset')
+            return v
+        if repr(got) != repr(want):
+            v.bad('differs-from-fresh', '%s [dense online] pre=%s post=%s: after reset() update returns %s, a fresh '
+                  'monitor %s' % (text, case['pre_sig'], case['post_sig'], got, want), 'D-dense-reset')
+        return v
+
     def gen(self, rng, ctx):
+        if rng.random() < 0.15:
+            return self.gen_dense(rng)
         past = rng.random() < 0.6
         c = past_cfg(rng) if past else bf_cfg(rng)
         c.max_depth = min(c.max_depth, 4)
@@ -67,6 +114,8 @@ class C10(Prop):
         return out
 
     def judge(self, case):
+        if case.get('dense'):
+            return self.judge_dense(case)
         v = Verdict()
         f = case['formula']
         names = sorted(case['post'])
